@@ -121,8 +121,44 @@ fn swap_join_condition(cond: &BoundExpression) -> BoundExpression {
     }
 }
 
-/// Shifts column indices by offset.
+/// Direct sub-expressions of an expression. Sub-queries are opaque (they bind their own scope).
+fn children(expr: &BoundExpression) -> Vec<&BoundExpression> {
+    match expr {
+        BoundExpression::BinaryOp { left, right, .. } => vec![left.as_ref(), right.as_ref()],
+        BoundExpression::UnaryOp { expr, .. } => vec![expr.as_ref()],
+        BoundExpression::IsNull { expr, .. } => vec![expr.as_ref()],
+        BoundExpression::Between {
+            expr, low, high, ..
+        } => vec![expr.as_ref(), low.as_ref(), high.as_ref()],
+        BoundExpression::InList { expr, list, .. } => {
+            let mut v = vec![expr.as_ref()];
+            v.extend(list.iter());
+            v
+        }
+        BoundExpression::InSubquery { expr, .. } => vec![expr.as_ref()],
+        BoundExpression::Function { args, .. } => args.iter().collect(),
+        BoundExpression::Aggregate { arg, .. } => arg.iter().map(|a| a.as_ref()).collect(),
+        BoundExpression::Case {
+            operand,
+            when_then,
+            else_expr,
+            ..
+        } => {
+            let mut v: Vec<&BoundExpression> = operand.iter().map(|o| o.as_ref()).collect();
+            for (w, t) in when_then {
+                v.push(w);
+                v.push(t);
+            }
+            v.extend(else_expr.iter().map(|e| e.as_ref()));
+            v
+        }
+        _ => Vec::new(),
+    }
+}
+
+/// Shifts column indices by offset (in every kind of expression, not only binary operators).
 fn shift_columns(expr: &BoundExpression, offset: i32) -> Option<BoundExpression> {
+    let boxed = |e: &BoundExpression| shift_columns(e, offset).map(Box::new);
     match expr {
         BoundExpression::ColumnBinding(c) => {
             let new_idx = c.column_idx as i32 + offset;
@@ -141,13 +177,65 @@ fn shift_columns(expr: &BoundExpression, offset: i32) -> Option<BoundExpression>
             right,
             result_type,
         } => Some(BoundExpression::BinaryOp {
-            left: Box::new(shift_columns(left, offset)?),
+            left: boxed(left)?,
             op: *op,
-            right: Box::new(shift_columns(right, offset)?),
+            right: boxed(right)?,
             result_type: *result_type,
         }),
+        BoundExpression::UnaryOp {
+            op,
+            expr,
+            result_type,
+        } => Some(BoundExpression::UnaryOp {
+            op: *op,
+            expr: boxed(expr)?,
+            result_type: *result_type,
+        }),
+        BoundExpression::IsNull { expr, negated } => Some(BoundExpression::IsNull {
+            expr: boxed(expr)?,
+            negated: *negated,
+        }),
+        BoundExpression::Between {
+            expr,
+            low,
+            high,
+            negated,
+        } => Some(BoundExpression::Between {
+            expr: boxed(expr)?,
+            low: boxed(low)?,
+            high: boxed(high)?,
+            negated: *negated,
+        }),
+        BoundExpression::InList {
+            expr,
+            list,
+            negated,
+        } => Some(BoundExpression::InList {
+            expr: boxed(expr)?,
+            list: list
+                .iter()
+                .map(|e| shift_columns(e, offset))
+                .collect::<Option<Vec<_>>>()?,
+            negated: *negated,
+        }),
+        BoundExpression::Function {
+            func,
+            args,
+            distinct,
+            return_type,
+        } => Some(BoundExpression::Function {
+            func: func.clone(),
+            args: args
+                .iter()
+                .map(|e| shift_columns(e, offset))
+                .collect::<Option<Vec<_>>>()?,
+            distinct: *distinct,
+            return_type: *return_type,
+        }),
         BoundExpression::Literal { .. } => Some(expr.clone()),
-        _ => Some(expr.clone()),
+        // Anything else that references columns cannot be moved safely.
+        other if children(other).is_empty() => Some(other.clone()),
+        _ => None,
     }
 }
 
@@ -155,11 +243,7 @@ fn shift_columns(expr: &BoundExpression, offset: i32) -> Option<BoundExpression>
 fn all_columns_ge(expr: &BoundExpression, min: usize) -> bool {
     match expr {
         BoundExpression::ColumnBinding(c) => c.column_idx >= min,
-        BoundExpression::BinaryOp { left, right, .. } => {
-            all_columns_ge(left, min) && all_columns_ge(right, min)
-        }
-        BoundExpression::Literal { .. } => true,
-        _ => true,
+        other => children(other).into_iter().all(|c| all_columns_ge(c, min)),
     }
 }
 
@@ -167,10 +251,9 @@ fn all_columns_ge(expr: &BoundExpression, min: usize) -> bool {
 fn any_column_in_range(expr: &BoundExpression, start: usize, end: usize) -> bool {
     match expr {
         BoundExpression::ColumnBinding(c) => c.column_idx >= start && c.column_idx < end,
-        BoundExpression::BinaryOp { left, right, .. } => {
-            any_column_in_range(left, start, end) || any_column_in_range(right, start, end)
-        }
-        _ => false,
+        other => children(other)
+            .into_iter()
+            .any(|c| any_column_in_range(c, start, end)),
     }
 }
 
